@@ -229,6 +229,19 @@ add(
     "DESIGN.md 6/C13",
 )
 
+add(
+    "C14",
+    "exploration",
+    "Stopping / promotion Hyperband with GP multi-fidelity and HyperTune searchers, all searcher_data policies, register_pending_myopic, "
+    "1-3 brackets, both reward maps, scripts with / without checkpointing and failures, every tape-chosen interleaving of up to 3 trials; "
+    "after every event the searcher's data set (state_transformer.state) must contain exactly the (trial, level) pairs the policy selects "
+    "from what was delivered, once each and with the mapped reported value, and pending entries only for running trials at unobserved "
+    "levels. 4e3 histories quick (GP really fitted), 8e4 thorough.",
+    "DyHPO is not generated (does not construct in this image without extra set-up); HyperTune with searcher_data='rungs' only (its model is defined at rung levels).",
+    "property-based testing (Hypothesis choice tape, stateful protocol driver): state invariant after every event against a reference data policy",
+    "DESIGN.md 6/C14",
+)
+
 NOT_YET = {}
 
 ALL = [f"C{i:02d}" for i in range(1, 21)]
